@@ -8,13 +8,16 @@ import json, subprocess, sys
 pid = sys.argv[1]
 theirs = json.loads(subprocess.run(["git", "show", "wt-%s:known_findings.json" % pid], stdout=subprocess.PIPE, text=True, check=True).stdout)
 ours = json.load(open("known_findings.json"))
-have = {f["id"] for f in ours["findings"]}
-added = []
-for f in theirs["findings"]:
-    if f["id"] not in have:
-        ours["findings"].append(f); added.append(f["id"])
+# the builder of a property owns the K-entries of that property: replace ours by theirs; everything else: add if the id is new
+mine = [f for f in theirs["findings"] if f.get("property") == pid and not f["id"].startswith("F")]
+keep = [f for f in ours["findings"] if not (f.get("property") == pid and not f["id"].startswith("F"))]
+have = {f["id"] for f in keep}
+clash = [f["id"] for f in mine if f["id"] in have]
+if clash:
+    print("ID CLASH, rename on the branch first:", clash); sys.exit(1)
+ours["findings"] = keep + mine
 json.dump(ours, open("known_findings.json", "w"), indent=1)
-print("known findings added:", added)
+print("known findings of", pid, ":", [(f["id"], f["status"]) for f in mine])
 PY
 git add known_findings.json; git commit -qm "known_findings: entries from wt-$id" || true
 git merge -q -X ours wt-$id -m "merge wt-$id" || { echo "MERGE NEEDS ATTENTION"; git status --short | head; exit 1; }
